@@ -94,7 +94,7 @@ def judge(ctx, rows, what='case'):
     ctx.traces_ok += len(rows) - len(mm)
     left = sorted(mm)
     explained = {}
-    if left:
+    if left and not os.environ.get('C12_NO_KF'):
         # re-judge the rejected cases with each single deviation (and, last resort, all of them) enabled
         sub = [rows[i] for i in left]
         names = [k[0] for k in KFS] + ['all']
@@ -131,7 +131,9 @@ def run(ctx):
             for k in KFS]
     # 2. the real code (meanwhile)
     def real():
-        h = ctx.build_harness('h_serialize')
+        # self-test hooks (docs/BUILDING_A_CHECK.md "show that the check binds"): a harness binary built against a scratch copy
+        # of rpc/serialize.h, and judging without the known-finding classification
+        h = os.environ.get('C12_HARNESS') or ctx.build_harness('h_serialize')
         trace = f'{ctx.out}/serialize.ndjson'
         rc, o, e = ctx.run_harness(h, ['--out', trace, '--seed', ctx.seed, '--tier', t], timeout=2400, ok_rcs=(0,))
         if rc == 124:
